@@ -195,6 +195,24 @@ def _update(L, m, d, o, cap, guard, again=False):
         s.free()
 
 
+def _update_after_overflow(L, m, d, o_big, o_small, cap, guard):
+    """history on ONE scene object: an update that overflows the buffer (options o_big at capacity cap), then an update with options
+    o_small; returns the second result (the scene is a function of model, data and options only, not of what was rendered before)"""
+    s = Scene(L, m, cap, guard)
+    try:
+        L.call("mjv_updateCamera", m, d, o_big["cam"], s.buf, ret=None)
+        L.call("mjv_updateScene", m, d, o_big["opt"], o_big["pert"], o_big["cam"], o_big["catmask"], s.buf, ret=None)
+        first = dict(ngeom=s.ngeom(), status=s.status())
+        L.call("mjv_updateCamera", m, d, o_small["cam"], s.buf, ret=None)
+        L.clear_messages()
+        L.call("mjv_updateScene", m, d, o_small["opt"], o_small["pert"], o_small["cam"], o_small["catmask"], s.buf, ret=None)
+        r = dict(ngeom=s.ngeom(), status=s.status(), guard_ok=s.guard_ok(), first=first)
+        r["geoms"] = s.geoms()
+        return r
+    finally:
+        s.free()
+
+
 def _mkopt(L, m, spec):
     """spec (JSON-able) -> dict(opt, pert, cam, catmask) of engine structs"""
     lay = L.layout("mjvOption")
@@ -410,7 +428,7 @@ def _same(a, b):
     return a.shape == b.shape and a.view(np.uint8).tobytes() == b.view(np.uint8).tobytes()
 
 
-def _sweep(P, L, m, d, o, det, guard, key):
+def _sweep(P, L, m, d, o, det, guard, key, small=None):
     """capacity sweep for one (model, state, options); returns the full-scene result or None"""
     big = BIG
     full = _update(L, m, d, o, big, guard)
@@ -461,6 +479,21 @@ def _sweep(P, L, m, d, o, det, guard, key):
         if over:
             first_kinds.add(kind)
         P.count("updates_at_capacity")
+    # history independence: after an overflowing update, a later update of the SAME scene object with options that fit must give
+    # exactly what a fresh scene gives (ngeom is reset by every update; 'status' is a sticky diagnostic and is not compared)
+    if small is not None and N >= 2:
+        fs = _update(L, m, d, small, big, guard)
+        n2 = fs["ngeom"]
+        if not fs["status"] and n2 < N:
+            cap = max(n2, (n2 + N) // 2) if n2 + 1 < N else n2      # n2 <= cap < N: the first update overflows, the second fits
+            if cap < N:
+                r2 = _update_after_overflow(L, m, d, o, small, cap, guard)
+                P.count("updates_after_an_overflow_on_the_same_scene")
+                if not r2["first"]["status"]:
+                    P.count("history_case_first_update_did_not_overflow")
+                elif r2["ngeom"] != n2 or not _same(r2["geoms"], fs["geoms"]) or not r2["guard_ok"]:
+                    P.violation("update-after-an-overflow-on-the-same-scene-differs-from-a-fresh-scene",
+                                dict(det, capacity=cap, needed_first=N, needed_second=n2, got=r2["ngeom"]))
     P.note_max("needed_geoms", N)
     for k in first_kinds:
         P.case("%s|overflow-at:%s" % (key, k), nontrivial=True)
@@ -511,12 +544,14 @@ def worker(c):
         specs = [_geoms_only_spec(rng, m) for _ in range(c["n_geoms_only"])]
         specs += [_full_spec(rng, m, everything=True)] if c.get("all_on", True) else []
         specs += [_full_spec(rng, m) for _ in range(c["n_random"])]
+        opts_cache = [_mkopt(L, m, sp) for sp in specs]
         for oi, spec in enumerate(specs):
-            o = _mkopt(L, m, spec)
+            o = opts_cache[oi]
+            small = opts_cache[(oi + 1) % len(opts_cache)] if len(opts_cache) > 1 else None     # another option vector (history relation)
             det = dict(case=c, model=name, state=skind, state_index=si, option_index=oi, options=spec)
             key = "%s|%s|%s" % (name, skind, spec["klass"])
             try:
-                full = _sweep(P, L, m, d, o, det, guard, key)
+                full = _sweep(P, L, m, d, o, det, guard, key, small=small)
                 if full is not None and spec["klass"] == "geoms-only":
                     _check_faithful(P, m, d, o, full, det)
             except drv.MjError as e:
